@@ -3,7 +3,6 @@ package reconciling
 import (
 	"errors"
 	"github.com/jotaen/klog/klog"
-	"regexp"
 	"strings"
 )
 
@@ -50,10 +49,13 @@ func (r *Reconciler) ExtendPause(increment klog.Duration) error {
 
 	extendedPause := r.Record.Entries()[pauseEntryI].Duration().Plus(increment)
 	pauseLineIndex := r.lastLinePointer - countLines(r.Record.Entries()[pauseEntryI:])
-	durationPattern := regexp.MustCompile(`(-\w+)`)
-	value := durationPattern.FindString(r.lines[pauseLineIndex].Text)
 	if extendedPause.InMinutes() != 0 {
-		r.lines[pauseLineIndex].Text = strings.Replace(r.lines[pauseLineIndex].Text, value, extendedPause.ToString(), 1)
+		// Replace the duration value of the entry, i.e. the first token of the line
+		// (after the indentation). The summary text that might follow is left untouched.
+		text := r.lines[pauseLineIndex].Text
+		valueStart := len(text) - len(strings.TrimLeft(text, " \t"))
+		valueEnd := valueStart + strings.IndexAny(text[valueStart:]+" ", " \t")
+		r.lines[pauseLineIndex].Text = text[:valueStart] + extendedPause.ToString() + text[valueEnd:]
 	}
 
 	return nil
